@@ -317,3 +317,49 @@ def copy_isolation(backend):
             'omega.symbolic.temporal.Automaton.__copy__': dict(source_lines=0, cut={}, stubs=[], dropped='run natively: bounded')},
             bounded=dict(evaluations=n, backend=backend, failures=fails[:6]))
     return run
+
+
+def refused_declaration(backend):
+    """A declaration that is refused (ValueError / AssertionError) leaves the
+    context exactly as it was: no identifier and no bit of the refused call
+    stays behind, and a later legal declaration of the same names works."""
+    def run():
+        import dd.autoref as autoref
+        fails = list()
+        n = 0
+        cases = [
+            (dict(y=(0, 7)), dict(z='bool', y=(3, 15)), dict(z=(0, 3))),          # fresh z + conflicting y
+            (dict(y=(0, 7), b='bool'), dict(w=(0, 1), v=(-2, 2), b=(0, 1)), dict(w='bool', v=(0, 1))),
+            (dict(x=(0, 2)), dict(q=(0, 3), x_0='bool'), dict(q='bool')),          # fresh q + a name that is a bit of x
+        ]
+        for ctor in ('Context.declare', 'Automaton.declare_variables', 'Automaton.declare_constants'):
+            for first, bad, later in cases:
+                n += 1
+                c = trl.Automaton() if ctor.startswith('Automaton') else fol.Context()
+                if backend == 'autoref':
+                    c.bdd = autoref.BDD()
+                decl = {'Context.declare': lambda **kw: c.declare(**kw),
+                        'Automaton.declare_variables': lambda **kw: c.declare_variables(**kw),
+                        'Automaton.declare_constants': lambda **kw: c.declare_constants(**kw)}[ctor]
+                decl(**first)
+                u = c.add_expr('y > 2' if 'y' in first else 'x = 1')
+                before_vars = {k: dict(v) for k, v in c.vars.items()}
+                before_bits = set(c.bdd.vars)
+                try:
+                    decl(**bad)
+                    continue          # accepted: nothing to check here
+                except (ValueError, AssertionError):
+                    pass
+                same = ({k: dict(v) for k, v in c.vars.items()} == before_vars and set(c.bdd.vars) == before_bits)
+                if not same and len(fails) < 6:
+                    fails.append(dict(name='a refused declaration leaves the context unchanged (identifiers and bits)',
+                                      how=ctor, declared=str(first), refused=str(bad), backend=backend,
+                                      identifiers_after=sorted(c.vars), bits_added=sorted(set(c.bdd.vars) - before_bits)))
+                try:
+                    decl(**later)
+                except (ValueError, AssertionError) as e:
+                    if len(fails) < 6:
+                        fails.append(dict(name='after a refused declaration the names of that call can still be declared',
+                                          how=ctor, refused=str(bad), later=str(later), error=repr(e)[:160], backend=backend))
+        return dict(records=[], stats=dict(), functions={}, bounded=dict(evaluations=n, backend=backend, failures=fails[:6]))
+    return run
